@@ -49,7 +49,9 @@ def builtinOK (pi : PublicInput) (traceLength : Felt) : Nat × Nat × Nat → Ou
       let copies := traceLength * Felt.inv (Felt.ofNat ratio)
       let diff := s.stopPtr - s.beginAddr
       let uses := if cells = 1 then diff else diff * Felt.inv (Felt.ofNat cells)
-      if uses.val ≤ copies.val then .ok () else .err "UsesInvalid"
+      -- `copies <= u128::MAX`: a row ratio that does not divide the trace length gives a huge field quotient
+      if ¬ (copies.val ≤ U128_MAX) then .err "UsesInvalid"
+      else if uses.val ≤ copies.val then .ok () else .err "UsesInvalid"
 
 def builtinsOK (pi : PublicInput) (traceLength : Felt) : List (Nat × Nat × Nat) → Outcome Unit
   | [] => .ok ()
